@@ -37,11 +37,13 @@ func init() { props["C18"] = runC18 }
 // ---- events, observations, cases ------------------------------------------
 
 type c18Ev struct {
-	kind byte  // 'R' recv, 'P' pong g@t, 'B' pong callback g, 'T' tick, 'D' server datagram
+	kind byte  // 'R' recv, 'P' pong g@t, 'B' pong callback g, 'T' tick, 'D' server datagram, 'S' message sent by the local side
 	t    int64 // virtual ns
 	g    int
 	ok   bool // sendPing succeeds (T, D)
-	sub  int  // flavour of a received message (conn drivers): 0 peer ping, 1 empty ACK, 2 GET, 3 RST unknown mid
+	sub  int  // flavour of a received message (conn drivers): 0 peer ping, 1 empty ACK, 2 GET, 3 RST unknown mid;
+	// of a sent message (S): 0 NON request, 1 NON notification, 2 CON request never acknowledged, 3 NON request through Do
+	c int // connection index (histories over several connections, c18_multi.go); -1 = housekeeping round over all of them
 }
 
 func (e c18Ev) desc() string {
@@ -52,6 +54,8 @@ func (e c18Ev) desc() string {
 		return fmt.Sprintf("P%d@%d.%d", e.g, e.t, e.sub)
 	case 'B':
 		return fmt.Sprintf("B%d", e.g)
+	case 'S':
+		return fmt.Sprintf("S%d.%d", e.t, e.sub)
 	case 'T':
 		if e.ok {
 			return fmt.Sprintf("T%d", e.t)
@@ -88,6 +92,8 @@ func c18ParseEv(s string) (c18Ev, error) {
 		return c18Ev{kind: 'P', g: int(num(p[0])), t: num(p[1]), sub: sub}, nil
 	case 'B':
 		return c18Ev{kind: 'B', g: int(num(body))}, nil
+	case 'S':
+		return c18Ev{kind: 'S', t: num(body), sub: sub}, nil
 	case 'T', 't':
 		return c18Ev{kind: 'T', t: num(body), ok: s[0] == 'T'}, nil
 	case 'D', 'd':
@@ -104,6 +110,8 @@ func (e c18Ev) coq() string {
 		return fmt.Sprintf("Pong %d %s", e.g, coqZ(e.t))
 	case 'B':
 		return fmt.Sprintf("PongCb %d", e.g)
+	case 'S':
+		return fmt.Sprintf("Sent %s", coqZ(e.t))
 	case 'T':
 		return fmt.Sprintf("Tick %s %s", coqZ(e.t), coqBool(e.ok))
 	default:
@@ -285,6 +293,8 @@ type c18Session struct {
 	closed  bool
 	written []c18Written
 	failPng bool // next empty CON write fails
+	port    int  // remote port (distinct per connection when several share one pkg/connections table)
+	onWrite func() // called (outside the lock) after every successful write: the witness "the datagram is out"
 }
 
 type c18Written struct {
@@ -316,7 +326,7 @@ func (s *c18Session) Close() error {
 }
 func (s *c18Session) MaxMessageSize() uint32 { return 64 * 1024 }
 func (s *c18Session) RemoteAddr() net.Addr {
-	return &net.UDPAddr{IP: net.IPv4(127, 0, 0, 1), Port: 5683}
+	return &net.UDPAddr{IP: net.IPv4(127, 0, 0, 1), Port: 5683 + s.port}
 }
 func (s *c18Session) LocalAddr() net.Addr {
 	return &net.UDPAddr{IP: net.IPv4(127, 0, 0, 1), Port: 5684}
@@ -324,18 +334,29 @@ func (s *c18Session) LocalAddr() net.Addr {
 func (s *c18Session) NetConn() net.Conn { return nil }
 func (s *c18Session) WriteMessage(req *pool.Message) error {
 	s.mu.Lock()
-	defer s.mu.Unlock()
 	w := c18Written{typ: req.Type(), code: req.Code(), mid: req.MessageID()}
 	if s.closed {
+		s.mu.Unlock()
 		return net.ErrClosed
 	}
 	if s.failPng && w.typ == message.Confirmable && w.code == codes.Empty {
 		w.fail = true
 		s.written = append(s.written, w)
+		s.mu.Unlock()
 		return errors.New("scripted write failure")
 	}
 	s.written = append(s.written, w)
+	f := s.onWrite
+	s.mu.Unlock()
+	if f != nil {
+		f()
+	}
 	return nil
+}
+func (s *c18Session) setOnWrite(f func()) {
+	s.mu.Lock()
+	s.onWrite = f
+	s.mu.Unlock()
 }
 func (s *c18Session) WriteMulticastMessage(*pool.Message, *net.UDPAddr, ...coapNet.MulticastOption) error {
 	return errors.New("not supported")
@@ -386,10 +407,17 @@ type c18UDPDriver struct {
 	peerMid    int32
 	waitG      int // ping generation whose handler is still registered (0: none)
 	conns      *connections.Connections
+	sendTok    int
+	before     int64
 }
 
-func c18NewUDPDriver(h c18Hist) (*c18UDPDriver, error) {
+func c18NewUDPDriver(h c18Hist) (*c18UDPDriver, error) { return c18NewUDPDriverSh(h, nil, 0) }
+
+// sh != nil: the inactivity monitor comes from a factory (cfg.CreateInactivityMonitor) that was produced by ONE
+// application of the option and is shared by several connections (c18_multi.go)
+func c18NewUDPDriverSh(h c18Hist, sh *c18Shared, port int) (*c18UDPDriver, error) {
 	d := &c18UDPDriver{sess: c18NewSession(), done: make(chan struct{}, 64), peerMid: 20000}
+	d.sess.port = port
 	cfg := udpClient.DefaultConfig
 	cfg.Errors = func(error) {}
 	cfg.TransmissionAcknowledgeTimeout = 1000 * time.Hour // no retransmission of pings inside a history
@@ -403,12 +431,17 @@ func c18NewUDPDriver(h c18Hist) (*c18UDPDriver, error) {
 		d.closeLog.Add(1)
 		inactivity.CloseConn(cc)
 	}
-	if h.ka {
+	var inner udpClient.InactivityMonitor
+	switch {
+	case sh != nil:
+		inner = sh.udpFactory()
+	case h.ka:
 		options.WithKeepAlive(h.max, time.Duration(h.period*int64(h.max+1)+h.rem), onInactive).UDPClientApply(&cfg)
-	} else {
+		inner = cfg.CreateInactivityMonitor()
+	default:
 		options.WithInactivityMonitor(time.Duration(h.period), onInactive).UDPClientApply(&cfg)
+		inner = cfg.CreateInactivityMonitor()
 	}
-	inner := cfg.CreateInactivityMonitor()
 	real, ok := inner.(*inactivity.Monitor[*udpClient.Conn])
 	if !ok {
 		return nil, fmt.Errorf("unexpected monitor type %T", inner)
@@ -416,6 +449,9 @@ func c18NewUDPDriver(h c18Hist) (*c18UDPDriver, error) {
 	d.real = real
 	d.mon = &c18CountingMonitor{inner: inner}
 	d.cc = udpClient.NewConnWithOpts(d.sess, &cfg, udpClient.WithInactivityMonitor(d.mon))
+	if sh != nil {
+		sh.closes.Store(d.cc, &d.closeLog)
+	}
 	d.clk = c18Clock{0, real.LastActivity()}
 	if h.drv == "udpconns" {
 		d.conns = connections.New()
@@ -467,12 +503,121 @@ func (d *c18UDPDriver) inject(dg []byte, queued bool) error {
 	return nil
 }
 
+// send: the local side transmits a message through the public API of the connection. The call returns (or has been
+// made to return) before send does, so whatever the write path does to the monitor has been done.
+func (d *c18UDPDriver) send(sub int) error {
+	d.sendTok++
+	ctx, cancel := context.WithCancel(context.Background())
+	defer cancel()
+	m := d.cc.AcquireMessage(ctx)
+	defer d.cc.ReleaseMessage(m)
+	m.SetToken(message.Token{0x53, byte(d.sendTok), byte(d.sendTok >> 8)})
+	blocking := false
+	call := func() error { return d.cc.WriteMessage(m) }
+	switch sub % 4 {
+	case 0: // NON request (writeMessageAsync)
+		m.SetType(message.NonConfirmable)
+		m.SetCode(codes.GET)
+		_ = m.SetPath("/s")
+	case 1: // NON notification to an observer that went away
+		m.SetType(message.NonConfirmable)
+		m.SetCode(codes.Content)
+		m.SetObserve(uint32(d.sendTok))
+		m.SetBody(strings.NewReader("notification"))
+	case 2: // CON request that is never acknowledged: the call waits for the ACK until its context is cancelled
+		m.SetType(message.Confirmable)
+		m.SetCode(codes.GET)
+		_ = m.SetPath("/s")
+		blocking = true
+	default: // NON request through Do: the call waits for a response until its context is cancelled
+		m.SetType(message.NonConfirmable)
+		m.SetCode(codes.GET)
+		_ = m.SetPath("/s")
+		blocking = true
+		call = func() error {
+			resp, err := d.cc.Do(m)
+			if err == nil {
+				d.cc.ReleaseMessage(resp)
+			}
+			return err
+		}
+	}
+	if !blocking {
+		if err := call(); err != nil {
+			return fmt.Errorf("send: %w", err)
+		}
+		return nil
+	}
+	wrote := make(chan struct{}, 1)
+	d.sess.setOnWrite(func() {
+		select {
+		case wrote <- struct{}{}:
+		default:
+		}
+	})
+	defer d.sess.setOnWrite(nil)
+	errc := make(chan error, 1)
+	go func() { errc <- call() }()
+	select {
+	case <-wrote: // the datagram is out; the call now waits for the peer, which stays silent
+	case err := <-errc:
+		return fmt.Errorf("send returned before writing: %v", err)
+	case <-time.After(60 * time.Second):
+		return errors.New("hang: send did not reach the session within 60 s")
+	}
+	cancel()
+	select {
+	case <-errc:
+	case <-time.After(60 * time.Second):
+		return errors.New("hang: send did not return within 60 s after its context was cancelled")
+	}
+	return nil
+}
+
+// pre / post bracket one event: post returns the pings written and the closes seen since pre
+func (d *c18UDPDriver) pre() {
+	d.before = d.closeLog.Load()
+	d.sess.take()
+}
+
+func (d *c18UDPDriver) post() []c18Obs {
+	var out []c18Obs
+	for _, w := range d.sess.take() {
+		if w.typ == message.Confirmable && w.code == codes.Empty {
+			d.mids = append(d.mids, w.mid)
+			if w.fail {
+				out = append(out, c18Obs{'F', len(d.mids)})
+				d.waitG = 0
+			} else {
+				out = append(out, c18Obs{'P', len(d.mids)})
+				d.waitG = len(d.mids)
+			}
+		}
+	}
+	for i := d.before; i < d.closeLog.Load(); i++ {
+		out = append(out, c18Obs{kind: 'X'})
+		d.waitG = 0
+	}
+	return out
+}
+
+func (d *c18UDPDriver) setFail(fail bool) {
+	d.sess.mu.Lock()
+	d.sess.failPng = fail
+	d.sess.mu.Unlock()
+}
+
 func (d *c18UDPDriver) apply(e c18Ev) ([]c18Obs, error) {
 	closed := d.cc.Context().Err() != nil
-	var out []c18Obs
-	before := d.closeLog.Load()
-	d.sess.take()
+	d.pre()
 	switch e.kind {
+	case 'S':
+		if closed {
+			return nil, nil
+		}
+		if err := d.send(e.sub); err != nil {
+			return nil, err
+		}
 	case 'R', 'P':
 		if closed {
 			return nil, nil
@@ -514,9 +659,7 @@ func (d *c18UDPDriver) apply(e c18Ev) ([]c18Obs, error) {
 			d.clk.v = e.t
 		}
 	case 'T':
-		d.sess.mu.Lock()
-		d.sess.failPng = !e.ok
-		d.sess.mu.Unlock()
+		d.setFail(!e.ok)
 		if d.conns != nil {
 			d.conns.CheckExpirations(d.clk.at(e.t))
 		} else if !closed {
@@ -525,23 +668,7 @@ func (d *c18UDPDriver) apply(e c18Ev) ([]c18Obs, error) {
 	default:
 		return nil, fmt.Errorf("event %s not supported by driver udp", e.desc())
 	}
-	for _, w := range d.sess.take() {
-		if w.typ == message.Confirmable && w.code == codes.Empty {
-			d.mids = append(d.mids, w.mid)
-			if w.fail {
-				out = append(out, c18Obs{'F', len(d.mids)})
-				d.waitG = 0
-			} else {
-				out = append(out, c18Obs{'P', len(d.mids)})
-				d.waitG = len(d.mids)
-			}
-		}
-	}
-	for i := before; i < d.closeLog.Load(); i++ {
-		out = append(out, c18Obs{kind: 'X'})
-		d.waitG = 0
-	}
-	return out, nil
+	return d.post(), nil
 }
 
 // waiting reports whether ping generation g can still be waited for: it is the
@@ -612,7 +739,7 @@ func c18Emit(e *Emitter, h c18Hist) error {
 		return err
 	}
 	var sb strings.Builder
-	strikes, rx, closes := 0, 0, 0
+	strikes, rx, closes, sent := 0, 0, 0, 0
 	fmt.Fprintf(&sb, "Hist 0 %s %d %s %s [", coqZ(res.period), h.max, coqBool(h.ka), coqBool(res.cancels))
 	for i, ev := range h.evs {
 		if i > 0 {
@@ -631,6 +758,9 @@ func c18Emit(e *Emitter, h c18Hist) error {
 		if ev.kind == 'R' || ev.kind == 'P' || ev.kind == 'B' {
 			rx++
 		}
+		if ev.kind == 'S' {
+			sent++
+		}
 		fmt.Fprintf(&sb, "(%s, [%s])", ev.coq(), strings.Join(parts, "; "))
 	}
 	sb.WriteString("]")
@@ -646,6 +776,9 @@ func c18Emit(e *Emitter, h c18Hist) error {
 		buckets = append(buckets, "not-closed")
 	}
 	buckets = append(buckets, fmt.Sprintf("pings:%d", min(strikes, 6)))
+	if sent > 0 {
+		buckets = append(buckets, "with-sends")
+	}
 	e.Add(sb.String(), h.desc(), (strikes+closes) > 0 && rx > 0, buckets...)
 	return nil
 }
@@ -682,7 +815,14 @@ func c18Gen(r *Rng, drv string, ka bool, maxLen int) c18Hist {
 		P = c18Sec
 	}
 	deltas := []int64{-200 * c18Ms, -1, 0, 1, 200 * c18Ms, c18Sec}
+	sends := drv == "udp" || drv == "udpconns" || drv == "tcp" || drv == "srv"
 	for i := 0; i < n; i++ {
+		// the local side sends something to the (possibly silent) peer: not a reception, `lastRx` stays
+		if sends && r.Chance(14) {
+			now += c18Step(r, P)
+			h.evs = append(h.evs, c18Ev{kind: 'S', t: now, sub: r.Intn(4)})
+			continue
+		}
 		k := r.Intn(100)
 		switch {
 		case k < 58: // tick
@@ -782,7 +922,7 @@ func runC18(a runArgs) error {
 	e := NewEmitter("C18", "Monitor.Run")
 	e.ShardSize = 120
 	e.Preamble = "From GoCoap Require Import Monitor.Model."
-	e.Rule = "event histories (message received / pong for generation g / tick at virtual time t, spacings at the period -200ms,-1ns,0,+1ns,+200ms, several ticks per period, retry limits 0-3) applied to the real inactivity.Monitor / KeepAlive (component drivers mon, conns, ka, kaconns), to a udp client Conn over an in-memory session (udp, udpconns), to a tcp client Conn over a pipe (tcp) and to the udp server (srv: handleInactivityMonitors + datagram path getConn), all wired by options.WithInactivityMonitor / WithKeepAlive; plus byte-level histories on a tcp client Conn over a scripted socket (tcps: 1-4 messages encoded by the real tcp coder, handed over in reads cut inside the header / one byte before the end of a frame / across frame ends / byte by byte, ticks around the expiry of the latest COMPLETE message and right after fragments); distinct = distinct history; non-trivial = the monitor acted at least once (ping or close) and at least one message or pong was received (tcps: and at least one read completed no message)"
+	e.Rule = "event histories (message received / pong for generation g / tick at virtual time t, spacings at the period -200ms,-1ns,0,+1ns,+200ms, several ticks per period, retry limits 0-3) applied to the real inactivity.Monitor / KeepAlive (component drivers mon, conns, ka, kaconns), to a udp client Conn over an in-memory session (udp, udpconns), to a tcp client Conn over a pipe (tcp) and to the udp server (srv: handleInactivityMonitors + datagram path getConn), all wired by options.WithInactivityMonitor / WithKeepAlive; plus byte-level histories on a tcp client Conn over a scripted socket (tcps: 1-4 messages encoded by the real tcp coder, handed over in reads cut inside the header / one byte before the end of a frame / across frame ends / byte by byte, ticks around the expiry of the latest COMPLETE message and right after fragments); plus messages SENT by the local side to a possibly silent peer (udp: NON request, NON notification, CON request that is never acknowledged, Do; srv, tcp: WriteMessage) between the receptions and ticks; plus system histories over 2-4 connections whose monitors come from ONE cfg.CreateInactivityMonitor factory (mudp: udp client Conns, mtcp: tcp client Conns, msrv: the peers of a real udp server; talkative and silent peers, housekeeping rounds over all of them, per-connection pongs/ticks/sends), judged per connection; distinct = distinct history; non-trivial = the monitor acted at least once (ping or close) and at least one message or pong was received (tcps: and at least one read completed no message; mudp/mtcp/msrv: the monitors of at least two connections acted)"
 	if a.only != "" {
 		f := strings.Fields(a.only)
 		switch f[0] {
@@ -795,6 +935,13 @@ func runC18(a runArgs) error {
 				return err
 			}
 			if err := c18Emit(e, h); err != nil {
+				return err
+			}
+		case "mhist":
+			if c18MOnly == nil {
+				return fmt.Errorf("families mudp/mtcp/msrv are not built in")
+			}
+			if err := c18MOnly(e, f); err != nil {
 				return err
 			}
 		case "shist":
@@ -852,6 +999,12 @@ func runC18(a runArgs) error {
 			return err
 		}
 	}
+	// several connections from one option value (c18_multi.go)
+	if c18MRun != nil {
+		if err := c18MRun(e, rng, scale); err != nil {
+			return err
+		}
+	}
 	for _, m := range []uint32{0, 1, 2, 3, 6, 9, 4294967294, 4294967295} {
 		for _, t := range []int64{0, 1, 999999999, 4 * c18Sec, 10 * c18Sec, -3 * c18Sec} {
 			c18PeriodCase(e, t, m)
@@ -874,6 +1027,12 @@ var (
 	c18SOnly func(e *Emitter, f []string) error
 )
 
+// families mudp / mtcp / msrv (several connections from one option value), set by c18_multi.go
+var (
+	c18MRun  func(e *Emitter, rng *Rng, scale int) error
+	c18MOnly func(e *Emitter, f []string) error
+)
+
 // histories kept from development; the first is the F12 witness of DESIGN.md
 var c18Corpus = []string{
 	"hist udp 1000000000 0 1 true T1000000001,R1500000000.0,T2500000001",
@@ -885,4 +1044,15 @@ var c18Corpus = []string{
 	"hist ka 1000000000 0 1 true T1000000001,R1500000000.0,T2500000001,B1,T2600000000,T2700000000",
 	"hist mon 1000000000 0 0 false T1000000000,T1000000001",
 	"hist conns 1000000000 0 0 false T999999999,R999999999.0,T1999999999,T2000000000,T3000000000",
+	// the local side keeps sending to a silent peer (seed C18-7): sends are not receptions
+	"hist udp 1000000000 0 0 false R100000000.2,S400000000.1,T600000000,T1100000001",
+	"hist udp 1000000000 0 0 false S500000000.0,S900000000.2,T1000000001",
+	"hist udp 1000000000 0 0 false R100000000.2,S700000000.3,T1100000001",
+	"hist udpconns 2000000000 0 0 false S1500000000.2,T2000000001",
+	"hist udp 1000000000 0 1 true T1000000001,S1500000000.0,T2000000002",
+	"hist udp 1000000000 0 2 true T1000000001,S1500000000.2,T2000000002,S2500000000.1,T3000000003,T4000000004",
+	"hist srv 1000000000 0 0 false S500000000.1,T1000000001",
+	"hist srv 2000000000 0 1 true D300000000,S1200000000.0,T2300000001,S2500000000.1,T3300000002,T4300000003",
+	"hist tcp 1000000000 0 0 false S500000000.0,T1000000001",
+	"hist tcp 1000000000 0 1 true T1000000001,S1500000000.0,T2000000002",
 }
